@@ -74,6 +74,7 @@ static Verdict check_c15(const TCase& tc, Stats& st)
     // inputs on which the grammar loops were discarded above: from here on every call returns quickly, and a call that does not return is the finding
     eng::stall_reason() = "a call on the parser never returned (after an earlier call ended with an exception, from inside a functor, or concurrently)";
     eng::watchdog_arm(60);
+    tpl::g_nonconst_calls = 0;      // per case: a counter that survives a case would make every later case (and every shrink candidate) "fail"
     std::vector<unsigned char> image(sizeof(PS)); std::memcpy(image.data(), &p, sizeof(PS));
     auto image_same = [&]() { return std::memcmp(image.data(), &p, sizeof(PS)) == 0; };
     // isolated results (each on the freshly injected, otherwise untouched object, one at a time)
@@ -82,6 +83,7 @@ static Verdict check_c15(const TCase& tc, Stats& st)
     // something a call leaves behind in thread-local or static storage shows up as a difference when the history runs the calls on one thread
     for (size_t t = 0; t < tc.threads.size(); ++t) for (auto& op : tc.threads[t]) { OpResult r; eng::on_big_stack([&] { r = run_op<TT>(c, op); }, size_t(64) << 20); expect[t].push_back(r); }
     if (!image_same()) return Verdict::fail("the parser object changed during const calls (isolated phase)");
+    if (tpl::g_nonconst_calls.load() != 0) return Verdict::fail("a functor stored in the parser was invoked as a non-const object: a const parse can write into the parser object");
     auto desc = [&](size_t t, size_t i) { vj::Value d = vj::Value::object(); d.set("thread", (unsigned long long)t); d.set("op", (unsigned long long)i); const Op& op = tc.threads[t][i]; d.set("kind", op.kind == 0 ? "parse" : op.kind == 1 ? "context_parse" : "write_diag_str"); if (op.kind != 2) d.set("input", c.inputs[size_t(op.input)].text); d.set("verbose", op.verbose); return d; };
     bool had_fail_before_success = false;
     if (tc.threads.size() == 1)
